@@ -28,8 +28,40 @@ CONST_POOL = ["X", "DONE", "42", "-7", "0", "1.5", "-0.25", "1e10", "true", "fal
 ENUM_POOL = [["A", "B"], ["ACTIVE", "PAUSED", "COMPLETE"], ["ACT", "ACTIVE"], ['"a b"', "c"], ["1", "2", "10"],
              ["true", "no"], ['"true"', '"false"'], ["LOW"], ["été", "hiver"], ["1.5", "2.5"], ["null", "x"],
              ["v1", "v2"], ["007", "8"], ["A", "AB", "ABC"]]
+# COMPATIBILITY characters: NFKC changes them, NFC (what the reader applies) does not -- micro sign, superscript two,
+# trade mark, ligature fi, full-width A, circled one, black-letter H, Roman numeral, dz digraph, double-struck N -- plus the
+# angstrom / ohm / kelvin signs, which NFC itself replaces.  Bare and quoted, alone and inside a word.
+COMPAT_CHARS = ["\u00b5", "\u00b2", "\u2122", "\ufb01", "\uff21", "\u2460", "\u210c", "\u2163", "\u01c5", "\u2115", "\u212b", "\u2126",
+                "\u212a", "\u1e9b", "\u02b0", "\u00aa", "\u3392"]
+COMPAT_VALUES = [c + "m" for c in COMPAT_CHARS[:6]] + ['"' + c + '"' for c in COMPAT_CHARS] + \
+                ['"m' + c + ' x"' for c in COMPAT_CHARS[:8]] + ["\ufb01n", "x\u00b5", "\uff21\uff22", "\u00b5\u00b5", "K\u212a"]
+CONST_POOL += COMPAT_VALUES
+ENUM_POOL += [[COMPAT_VALUES[i], COMPAT_VALUES[(i * 7 + 3) % len(COMPAT_VALUES)]] for i in range(0, len(COMPAT_VALUES), 2)] + \
+             [["\u00b5", "\u03bc"], ['"\u00b5m"', '"\u03bcm"', "x"], ["\uff21", "A"], ['"\ufb01"', '"fi"'], ["\u212a", "K"]]
+
+
+def _prefix_families():
+    """ENUM member lists whose members are prefixes of one another, in EVERY order of every sub-family: the short member
+    first / in the middle / last, with 1-3 longer members; members equal up to case; numbers whose str() are prefixes."""
+    import itertools
+    fams = [["PENDING", "PENDING_REVIEW", "PENDING_DEPLOY", "PENDING_REVIEW_2"], ["A", "AB", "ABC", "ABD"], ["a", "ab", "A", "AB"],
+            ["x", "x-y", "x-y-z"], ["DONE", "DONE9", "DONE99"], ["1", "10", "100", "11"], ["1", "1.5", "1.55", "15"],
+            ["-1", "-10", "-1.5"], ["0", "00", "007"], ['"a"', '"a b"', '"a b c"'], ["v1", "v1.2", "v1.2.3"], ["\u00e9", "\u00e9t\u00e9", "\u00e9t\u00e9s"],
+            ['"1"', '"10"', '"100"'], ["t", "tr", "true"], ["pending", "PENDING", "Pending", "PENDING_X"]]
+    out = []
+    for fam in fams:
+        for k in (2, 3, 4):
+            for sub in itertools.combinations(fam, k):
+                if not any(a != b and b.strip('"').startswith(a.strip('"')) for a in sub for b in sub):
+                    continue
+                for perm in itertools.permutations(sub):
+                    out.append(list(perm))
+    return out
+
+
+PREFIX_ENUMS = _prefix_families()
 KINDS = ["CONST", "ENUM", "BOOLEAN", "NUMBER", "DATE", "ISO8601"]
-NAMES = c12.CLEAN_NAMES + ["A.B", "MY_FIELD", "A-B", "Ünï", "CONTENT", "WS", "名前", "x/y"]
+NAMES = c12.CLEAN_NAMES + ["A.B", "MY_FIELD", "A-B", "Ünï", "CONTENT", "WS", "名前", "x/y", "\u00b5", "\ufb01eld", "\uff21\uff22", "K\u212a", "m\u00b2"]
 # META.CONTRACT only: FIELD["q r"] keeps its quotes in the field name -- double quotes, backslashes, blanks and a tab inside
 # the (escaped, repo 481c8b3) name literal of the rule the value fragment is taken from.  No line break: take() cuts lines.
 QUOTED_NAMES = [n for n in c12.CONTRACT_ONLY_NAMES if n.startswith('"') and "\\n" not in n]
@@ -42,7 +74,7 @@ def gen_kind_member(rng, kind):
     if kind == "CONST":
         return f"CONST[{rng.choice(CONST_POOL)}]"
     if kind == "ENUM":
-        return "ENUM[" + ",".join(rng.choice(ENUM_POOL)) + "]"
+        return "ENUM[" + ",".join(rng.choice(PREFIX_ENUMS) if rng.random() < 0.35 else rng.choice(ENUM_POOL)) + "]"
     if kind == "BOOLEAN":
         return "TYPE[BOOLEAN]"
     if kind == "NUMBER":
@@ -291,6 +323,8 @@ def run(ctx):
     for c in CONST_POOL:
         do("FIELDS", [("K", [f"CONST[{c}]"])])
         do("CONTRACT", [("K", ["REQ", f"CONST[{c}]"])])
+    for e in PREFIX_ENUMS:
+        do("FIELDS" if len(e) % 2 else "CONTRACT", [("K", ["REQ", "ENUM[" + ",".join(e) + "]"])])
     for e in ENUM_POOL:
         do("FIELDS", [("K", ["REQ", "ENUM[" + ",".join(e) + "]"])])
         do("CONTRACT", [("K", ["ENUM[" + ",".join(e) + "]"])])
